@@ -395,7 +395,9 @@ fn random_store(r: &mut Rng, n: usize, big: bool) -> Vec<U> {
                 }
             };
             U {
-                txid: (r.below(200) + 1) as u8,
+                // half of the time from a pool of three transactions, so that one block often holds several outputs
+                // of one transaction (the index keeps every reference distinct)
+                txid: if r.chance(1, 2) { (r.below(3) + 1) as u8 } else { (r.below(200) + 1) as u8 },
                 index: i as u32,
                 addr: *r.pick(&["A", "A", "B", "C"]),
                 assets: vec![("L", amt(r)), ("X", if r.chance(1, 2) { amt(r) } else { 0 }), ("Y", if r.chance(1, 3) { amt(r) } else { 0 })],
